@@ -135,3 +135,24 @@ Theorem C16_shared_socket_refuted :
   after_stream (enc (MDir ud) ++ concat (interleave [true; false] frags_t1 frags_t2) ++ enc MEnd) = None.
 Proof. exact shared_socket_breaks_framing. Qed.
 Print Assumptions C16_shared_socket_refuted.
+
+(* many tasks: the content of every file depends only on the pieces written to THAT file, in their order -
+   buffers of different tasks and the metadata files may be sent (and written locally) in any relative order. *)
+Theorem C16_files_independent_of_cross_file_order : forall body1 body2,
+  (forall f, written f body1 = written f body2) ->
+  forall f, flookup f (local_dir body1) = flookup f (local_dir body2).
+Proof. exact files_independent. Qed.
+Print Assumptions C16_files_independent_of_cross_file_order.
+
+(* connections that follow the protocol (own SEND_DIR_NAME first, then data/metadata, SEND_END last) with
+   pairwise independent directory names never make the server exit, for every interleaving: together with
+   C16_clients_isolated every such client gets exactly its own directory. *)
+Theorem C16_sessions_survive : forall dirs evs,
+  (forall i j, In i (map fst evs) -> In j (map fst evs) -> i <> j -> indep (dirs i) (dirs j)) ->
+  sessions dirs [] evs = true -> run evs server0 <> None.
+Proof. exact sessions_survive. Qed.
+Print Assumptions C16_sessions_survive.
+
+Theorem C16_sessions_nonvacuous : sessions dirs2 [] evs2 = true.
+Proof. exact sessions_nonvacuous. Qed.
+Print Assumptions C16_sessions_nonvacuous.
